@@ -331,6 +331,12 @@ def check(run):
     usable = sorted(fresh)
     head = [tree_line] + fresh_lines
     ctx = {"exe": exe, "head": head, "files": files, "fresh": fresh}
+    hyp = core.run_model("attr", run.casefile("attr-head.txt", head))
+    if not hyp or hyp[0] != "tree":
+        run.violation("tie", "the dictionary of a freshly prepared context does not satisfy the theorems' hypotheses: %s"
+                      % (hyp[0] if hyp else "?"), {"tree": tree_line[:2000]}, found_input=False,
+                      signature="attr hypotheses " + (hyp[0] if hyp else "?"))
+        return
     if run.replay_path:
         rp = core.json.load(open(run.replay_path))
         ops = rp["replay"]["case"].split()
@@ -419,10 +425,10 @@ def compare(run, ctx, cases):
 
         def fails(cand):
             m, im, cr = run_both(run, ctx, [cand], "attr-one.txt")
+            if m and "BAD" in m[0].split():
+                return False                 # a malformed history (undefined context or slot)
             if cr or not im or im[0].startswith(("CRASH", "NOT-RUN")):
                 return True
-            if any(t == "BAD" and not o.startswith("IN:") for o, t in zip(cand, m[0].split())):
-                return False                 # a malformed history (undefined context or slot)
             if not same(ctx, cand, m[0], im[0]):
                 return True
             return spec_verdicts(run, ctx, [cand], im)[0] != "ok"
